@@ -607,6 +607,10 @@ class LokyBackend(AutoBatchingMixin, ParallelBackendBase):
     supports_retrieve_callback = True
     supports_inner_max_num_threads = True
 
+    # No executor until `configure` succeeds: `terminate` can be called on a
+    # backend whose configuration failed (e.g. n_jobs == 0).
+    _workers = None
+
     def configure(
         self,
         n_jobs=1,
